@@ -827,6 +827,189 @@ theorem allScc_good {g : Graph} (h : g.WF) : ∃ cs, allScc g = .ok cs ∧ Good 
   obtain ⟨cs, h2, hgood⟩ := pass2_spec h hS S [] [] hI
   exact ⟨cs, by simp [allScc, h1, h2], hgood⟩
 
+/-! ### the fuel is never exhausted, on any `Graph` value (well formed or not)
+
+The recursion only ever meets vertex ids from the finite universe `U` = `0 .. n-1` plus the end points of
+the edge records; every recursive call on an unvisited vertex visits one more member of `U`. -/
+
+def cnt (U vis : List Nat) : Nat := U.countP (fun x => !vis.contains x)
+
+theorem cnt_mono {U vis vis' : List Nat} (h : ∀ x, x ∈ vis → x ∈ vis') : cnt U vis' ≤ cnt U vis := by
+  unfold cnt
+  apply List.countP_mono_left
+  intro x _ hx
+  simp only [Bool.not_eq_true', List.contains_eq_mem, decide_eq_false_iff_not] at hx ⊢
+  exact fun hm => hx (h x hm)
+
+theorem cnt_cons_lt {U vis : List Nat} {v : Nat} (hv : v ∈ U) (hvis : v ∉ vis) : cnt U (v :: vis) < cnt U vis :=
+  (countP_cons_lt v vis U hvis).2 hv
+
+theorem cnt_le (U vis : List Nat) : cnt U vis ≤ U.length := List.countP_le_length
+
+/-- `rec` never reports `diverges`; when it returns it has only grown the visited set, and pushed members of `U` -/
+def Term (U : List Nat) (fuel : Nat) (rec : Nat → St → Except Err St) : Prop :=
+  ∀ v vis st, v ∈ U → cnt U vis ≤ fuel →
+    rec v (vis, st) ≠ .error .diverges ∧
+    ∀ vis' st', rec v (vis, st) = .ok (vis', st') → (∀ x ∈ vis, x ∈ vis') ∧ (∀ x ∈ st', x ∈ st ∨ x ∈ U)
+
+theorem forEach_term {U : List Nat} {fuel : Nat} {rec : Nat → St → Except Err St} (hrec : Term U fuel rec)
+    (far : Nat → Option Nat) :
+    ∀ xs vis st, (∀ x ∈ xs, ∀ w, far x = some w → w ∈ U) → cnt U vis ≤ fuel →
+      forEach rec far xs (vis, st) ≠ .error .diverges ∧
+      ∀ vis' st', forEach rec far xs (vis, st) = .ok (vis', st') →
+        (∀ x ∈ vis, x ∈ vis') ∧ (∀ x ∈ st', x ∈ st ∨ x ∈ U) := by
+  intro xs
+  induction xs with
+  | nil =>
+    intro vis st _ _
+    refine ⟨by simp [forEach], ?_⟩
+    intro vis' st' h
+    simp only [forEach, Except.ok.injEq, Prod.mk.injEq] at h
+    obtain ⟨rfl, rfl⟩ := h
+    exact ⟨fun x hx => hx, fun x hx => Or.inl hx⟩
+  | cons e es ih =>
+    intro vis st hxs hfuel
+    cases hw : far e with
+    | none => simp [forEach, hw]
+    | some w =>
+      have hwU : w ∈ U := hxs e List.mem_cons_self w hw
+      obtain ⟨hnd, hok⟩ := hrec w vis st hwU hfuel
+      cases hr : rec w (vis, st) with
+      | error x =>
+        have : x ≠ Err.diverges := fun hx => hnd (by rw [hr, hx])
+        simp [forEach, hw, hr, this]
+      | ok s1 =>
+        obtain ⟨vis1, st1⟩ := s1
+        obtain ⟨hsub1, hst1⟩ := hok vis1 st1 hr
+        have hfuel1 : cnt U vis1 ≤ fuel := Nat.le_trans (cnt_mono hsub1) hfuel
+        obtain ⟨hnd2, hok2⟩ := ih vis1 st1 (fun x hx => hxs x (List.mem_cons_of_mem _ hx)) hfuel1
+        have heq : forEach rec far (e :: es) (vis, st) = forEach rec far es (vis1, st1) := by
+          simp [forEach, hw, hr]
+        rw [heq]
+        refine ⟨hnd2, ?_⟩
+        intro vis' st' h
+        obtain ⟨hsub2, hst2⟩ := hok2 vis' st' h
+        refine ⟨fun x hx => hsub2 x (hsub1 x hx), fun x hx => ?_⟩
+        rcases hst2 x hx with h1 | h1
+        · exact hst1 x h1
+        · exact Or.inr h1
+
+theorem dfsG_term {U : List Nat} {inc : Nat → List Nat} {far : Nat → Option Nat}
+    (hU : ∀ v, ∀ e ∈ inc v, ∀ w, far e = some w → w ∈ U) :
+    ∀ fuel, Term U fuel (dfsG inc far fuel) := by
+  intro fuel
+  induction fuel with
+  | zero =>
+    intro v vis st hv hfuel
+    by_cases hvis : v ∈ vis
+    · refine ⟨by simp [dfsG, hvis], ?_⟩
+      intro vis' st' h
+      simp only [dfsG, List.contains_iff_mem.2 hvis, if_true, Except.ok.injEq, Prod.mk.injEq] at h
+      obtain ⟨rfl, rfl⟩ := h
+      exact ⟨fun x hx => hx, fun x hx => Or.inl hx⟩
+    · have := cnt_cons_lt hv hvis
+      omega
+  | succ fuel ih =>
+    intro v vis st hv hfuel
+    by_cases hvis : v ∈ vis
+    · refine ⟨by simp [dfsG, hvis], ?_⟩
+      intro vis' st' h
+      simp only [dfsG, List.contains_iff_mem.2 hvis, if_true, Except.ok.injEq, Prod.mk.injEq] at h
+      obtain ⟨rfl, rfl⟩ := h
+      exact ⟨fun x hx => hx, fun x hx => Or.inl hx⟩
+    · have hfuel' : cnt U (v :: vis) ≤ fuel := by
+        have := cnt_cons_lt hv hvis
+        omega
+      obtain ⟨hnd, hok⟩ := forEach_term ih far (inc v) (v :: vis) st (hU v) hfuel'
+      cases hr : forEach (dfsG inc far fuel) far (inc v) (v :: vis, st) with
+      | error x =>
+        have : x ≠ Err.diverges := fun hx => hnd (by rw [hr, hx])
+        simp [dfsG, hvis, hr, this]
+      | ok s1 =>
+        obtain ⟨vis1, st1⟩ := s1
+        obtain ⟨hsub1, hst1⟩ := hok vis1 st1 hr
+        refine ⟨by simp [dfsG, hvis, hr], ?_⟩
+        intro vis' st' h
+        simp only [dfsG, hvis, hr, List.contains_eq_mem, decide_false, Bool.false_eq_true, if_false,
+          Except.ok.injEq, Prod.mk.injEq] at h
+        obtain ⟨rfl, rfl⟩ := h
+        refine ⟨fun x hx => hsub1 x (List.mem_cons_of_mem _ hx), fun x hx => ?_⟩
+        rcases List.mem_cons.1 hx with rfl | hx
+        · exact Or.inr hv
+        · exact hst1 x hx
+
+/-- the universe of vertex ids of a graph value -/
+def Graph.universe (g : Graph) : List Nat :=
+  List.range g.n ++ g.edges.toList.map (·.1) ++ g.edges.toList.map (·.2)
+
+theorem universe_length (g : Graph) : g.universe.length = g.fuel := by
+  simp [Graph.universe, Graph.fuel]
+  omega
+
+theorem dstOf_mem_universe (g : Graph) (e w : Nat) (h : g.dstOf e = some w) : w ∈ g.universe := by
+  unfold Graph.dstOf at h
+  cases hp : g.edges[e]? with
+  | none => simp [hp] at h
+  | some p =>
+    simp [hp] at h
+    have hm : p ∈ g.edges.toList := Array.mem_toList_iff.2 (Array.mem_of_getElem? hp)
+    unfold Graph.universe
+    exact List.mem_append_right _ (List.mem_map.2 ⟨p, hm, h⟩)
+
+theorem srcOf_mem_universe (g : Graph) (e w : Nat) (h : g.srcOf e = some w) : w ∈ g.universe := by
+  unfold Graph.srcOf at h
+  cases hp : g.edges[e]? with
+  | none => simp [hp] at h
+  | some p =>
+    simp [hp] at h
+    have hm : p ∈ g.edges.toList := Array.mem_toList_iff.2 (Array.mem_of_getElem? hp)
+    unfold Graph.universe
+    exact List.mem_append_left _ (List.mem_append_right _ (List.mem_map.2 ⟨p, hm, h⟩))
+
+theorem pass2_term (g : Graph) :
+    ∀ st vis acc, (∀ x ∈ st, x ∈ g.universe) → pass2 g st vis acc ≠ .error .diverges := by
+  intro st
+  induction st with
+  | nil => intro vis acc _; simp [pass2]
+  | cons v st ih =>
+    intro vis acc hst
+    have hst' : ∀ x ∈ st, x ∈ g.universe := fun x hx => hst x (List.mem_cons_of_mem _ hx)
+    by_cases hvis : v ∈ vis
+    · simpa [pass2, hvis] using ih vis acc hst'
+    · have hT := dfsG_term (U := g.universe) (inc := g.inEdges) (far := g.srcOf)
+        (fun _ e _ w hw => srcOf_mem_universe g e w hw) g.fuel
+      obtain ⟨hnd, _⟩ := hT v vis [] (hst v List.mem_cons_self)
+        (by rw [← universe_length]; exact cnt_le _ _)
+      cases hr : rdfs g g.fuel v (vis, []) with
+      | error x =>
+        have : x ≠ Err.diverges := fun hx => hnd (by unfold rdfs at hr; rw [hr, hx])
+        simp [pass2, hvis, hr, this]
+      | ok s1 =>
+        obtain ⟨vis1, comp⟩ := s1
+        simpa [pass2, hvis, hr] using ih vis1 (comp.reverse :: acc) hst'
+
+/-- for every `Graph` value the model's outcome is a result or `EdgeNotFound`, never `diverges` -/
+theorem allScc_ne_diverges (g : Graph) : allScc g ≠ .error .diverges := by
+  have hT := dfsG_term (U := g.universe) (inc := g.outEdges) (far := g.dstOf)
+    (fun _ e _ w hw => dstOf_mem_universe g e w hw) g.fuel
+  obtain ⟨hnd, hok⟩ := forEach_term hT some (List.range g.n) [] []
+    (fun x hx w hw => by
+      simp only [Option.some.injEq] at hw
+      subst hw
+      exact List.mem_append_left _ (List.mem_append_left _ hx))
+    (by rw [← universe_length]; exact cnt_le _ _)
+  cases hr : pass1 g with
+  | error x =>
+    have : x ≠ Err.diverges := fun hx => hnd (by unfold pass1 dfs at hr; rw [hr, hx])
+    simp [allScc, hr, this]
+  | ok s1 =>
+    obtain ⟨vis1, st1⟩ := s1
+    have hst : ∀ x ∈ st1, x ∈ g.universe := by
+      intro x hx
+      have := (hok vis1 st1 (by unfold pass1 dfs at hr; exact hr)).2 x hx
+      simpa using this
+    simpa [allScc, hr] using pass2_term g st1 [] [] hst
+
 /-! ### the specification as one predicate, and the executable checker -/
 
 /-- `cs` is the partition of the vertices `0 .. n-1` into mutual-reachability classes -/
